@@ -25,7 +25,7 @@ import time
 VERIF = os.path.dirname(os.path.dirname(os.path.abspath(__file__)))
 REPO = os.environ.get("VERIF_REPO", "/repo")
 SEED = int(os.environ.get("VERIF_SEED", "1") or "1")
-NCPU = os.cpu_count() or 4
+NCPU = int(os.environ.get("VERIF_NCPU") or os.cpu_count() or 4)
 STRICT = os.environ.get("VERIF_STRICT", "") == "1"
 OUT = os.environ.get("VERIF_OUT", os.path.join(VERIF, "evidence"))   # evidence and replay directory
 
@@ -87,7 +87,7 @@ class _MemBudget:
                         total = int(line.split()[1]) // (1 << 20)
         except OSError:
             pass
-        self.budget = max(8, int(total * 0.7))
+        self.budget = max(8, int(os.environ.get("VERIF_MEM_GB") or total * 0.7))
         self.used = 0
         self.cv = threading.Condition()
 
